@@ -4,7 +4,9 @@ Command histories (open r/w/a x dir_data_limit x directory/single-file, add_file
 del, write_dirfile, context-manager exit, abandon, reopen) are interpreted against the real `srctools.vpk.VPK`
 and a reference model ``dict[(folder, stem, ext)] -> bytes`` that is updated on successful mutations only.
 After every write_dirfile / exit a FRESH ``VPK(path, 'r')`` and the independent decoder `vlib.vpkref` must both
-give back exactly the model.
+give back exactly the model - and so must every other way of reopening the archive: ``VPK(path, 'a')``,
+``filesys.VPKFileSystem(path)``, ``filesys.get_filesystem(path)`` and a ``FileSystemChain`` member (listing through
+walk_folder('') / iteration, data through File.open_bin(), open_bin(name) and File.open_str('latin-1')).
 
 Sub-checks (different generator domains, so that one defect does not hide the others):
   placement  all limits / archive indexes / sizes up to 300 KiB, simple names
@@ -38,7 +40,8 @@ RULE = (
     'None/0/1/7/1024/70000, end by write_dirfile / with-exit / abandon), add_file, new_file(+write), overwrite, del, '
     'add_folder (disk tree built from the name pool; folder argument plain / trailing separator / "./" inside / relative; '
     '6 prefixes), extract_all, each name in one of 28 spellings (str / 2-tuple / 3-tuple / 3-tuple with the extension '
-    'left in the name x 7 spellings of the folder part), write_dirfile on a directory (x_dir.vpk) or single-file (x.vpk) archive in a scratch directory; data are '
+    'left in the name x 7 spellings of the folder part), every state re-read through VPK r/a, VPKFileSystem, '
+    'get_filesystem and FileSystemChain, write_dirfile on a directory (x_dir.vpk) or single-file (x.vpk) archive in a scratch directory; data are '
     '{len, seed} descriptors expanded with SHAKE-256, sizes 0..300 KiB concentrated around the limits and 64 KiB; '
     'non-trivial (placement) = some file is split between preload and archive data AND an overwrite or delete was '
     'committed and re-read by a fresh VPK; (names) = a name with an empty/dotted component was committed; '
@@ -56,6 +59,9 @@ ASSUMPTIONS = [
     'or ".\\" names a different folder in the unchanged tree and is not generated',
     'add_folder never meets an already existing name (it would stop half-way in os.walk() order) and no file path of '
     'the source tree is also a directory; extract_all is only compared when the model has no such file/directory clash',
+    'reopen routes: the filesystem API is case-insensitive, so it is only compared when no two model names differ '
+    'only in case, and listings are compared case-folded; open_str() is read with latin-1 (decodes every byte) and '
+    'compared after the universal-newline translation TextIOWrapper applies',
     'version 1 archives only (writing v2 is documented as unsupported); archive indexes None/0/1/5/42/999',
     'a session opened with mode "w", or "a" on a missing file, always ends with write_dirfile/exit (VPK() itself '
     'leaves a 0-byte directory file until then; the statement only speaks about the state after writing the directory)',
@@ -271,6 +277,7 @@ class Machine:
         self.side = side                  # scratch space for add_folder sources / extract_all targets (not the archive's folder)
         self.n_side = 0
         self.want_extract = False
+        self.n_verify = 0
         self.path = os.path.join(tmp, arch_filename(base, single))
         self.allow_fail = allow_fail
         self.disk_state = 'absent'        # absent | empty (0-byte file made by VPK()) | valid
@@ -672,6 +679,96 @@ class Machine:
                               f'last written {short(want[path])}')
         shutil.rmtree(dest, ignore_errors=True)
 
+    # ---- the other ways of reopening the archive
+    def check_reopen_routes(self, w: str) -> bool:
+        """The archive lists and returns the model however it is reopened: VPK(path, 'a'), filesys.VPKFileSystem(path),
+        filesys.get_filesystem(path), and as a member of a FileSystemChain (File.open_bin / open_bin(name) / open_str)."""
+        from srctools.vpk import VPK
+        from srctools import filesys
+        ctx = self.ctx
+        model = self.model
+        self.n_verify += 1
+        names = {key: vpkref.join_name(*key) for key in model}
+        want_names = sorted(names.values())
+
+        # -- VPK in append mode loads the same directory (nothing is written here)
+        app = VPK(self.path, mode='a', dir_data_limit=self.limit)
+        got_names = sorted(app.filenames())
+        ctx.check(got_names == want_names, 'route_listing',
+                  f"{w}VPK(path, 'a') lists {got_names!r}, model has {want_names!r}", route='VPK_a')
+        big = sum(len(d) for d in model.values()) > 128 * 1024
+        for key in sorted(model):
+            if big and self.n_verify % 2:
+                break
+            if names[key] not in app:
+                continue        # reported by the listing clause
+            got = app[names[key]].read()
+            if got != model[key]:
+                ctx.fail('route_readback', f"{w}VPK(path, 'a')[{names[key]!r}].read() gives {short(got)}, last written "
+                         f'{short(model[key])}; written with {self.meta[key]}', route='VPK_a', **self.meta[key])
+        self.labels.add('route:VPK_a')
+
+        # -- the filesystem API is case-insensitive: two model names that differ only in case are one file there
+        folded = [n.casefold() for n in want_names]
+        if len(set(folded)) != len(folded):
+            self.labels.add('route:fs_skipped_case_clash')
+            return False
+        routes = [
+            ('VPKFileSystem', lambda: filesys.VPKFileSystem(self.path)),
+            ('get_filesystem', lambda: filesys.get_filesystem(self.path)),
+            ('chain', lambda: filesys.FileSystemChain(filesys.VPKFileSystem(self.path))),
+            ('chain_add_sys', lambda: self._chain_with_side(filesys)),
+        ]
+        if big:     # several hundred KiB per file: one route per reopen, in turn
+            routes = [routes[self.n_verify % len(routes)]]
+        for rname, make in routes:
+            fs = make()
+            self.labels.add('route:' + rname)
+            listed = sorted(f.path.casefold() for f in fs.walk_folder(''))
+            ctx.check(listed == sorted(folded), 'route_listing',
+                      f"{w}{rname}: walk_folder('') lists {listed!r}, model has {sorted(folded)!r}", route=rname)
+            listed = sorted(f.path.casefold() for f in fs)
+            ctx.check(listed == sorted(folded), 'route_listing',
+                      f'{w}{rname}: iterating lists {listed!r}, model has {sorted(folded)!r}', route=rname)
+            for key in sorted(model):
+                name, data, meta = names[key], model[key], self.meta[key]
+                if not ctx.check(name in fs, 'route_listing', f'{w}{rname}: {name!r} is not `in` the filesystem', route=rname):
+                    continue
+                file = fs[name]
+                with file.open_bin() as f:
+                    got = f.read()
+                if got != data:
+                    ctx.fail('route_readback', f'{w}{rname}: fs[{name!r}].open_bin().read() gives {short(got)}, last written '
+                             f'{short(data)} (first difference at byte {first_diff(got, data)}); written with {meta}',
+                             route=rname, **meta)
+                with fs.open_bin(name) as f:
+                    got = f.read()
+                if got != data:
+                    ctx.fail('route_readback', f'{w}{rname}: open_bin({name!r}).read() gives {short(got)}, last written '
+                             f'{short(data)}; written with {meta}', route=rname, **meta)
+                # text route: latin-1 decodes every byte; TextIOWrapper's universal newlines turn \r\n and \r into \n
+                want_text = data.decode('latin-1').replace('\r\n', '\n').replace('\r', '\n')
+                with file.open_str('latin-1') as tf:
+                    got_text = tf.read()
+                if got_text != want_text:
+                    ctx.fail('route_readback', f'{w}{rname}: fs[{name!r}].open_str("latin-1").read() gives {len(got_text)} '
+                             f'characters, the data last written decodes to {len(want_text)} (first difference at '
+                             f'{first_diff(got_text.encode("latin-1"), want_text.encode("latin-1"))}); written with {meta}',
+                             route=rname, **meta)
+        fs = filesys.VPKFileSystem(self.path)
+        for key in sorted(self.ever - set(model)):
+            name = vpkref.join_name(*key)
+            if name.casefold() in folded:
+                continue
+            ctx.check(name not in fs, 'route_absent', f'{w}VPKFileSystem: deleted/unwritten file {name!r} is still `in` the filesystem')
+        return True
+
+    def _chain_with_side(self, filesys):
+        """A chain built with add_sys(): an empty in-memory filesystem first, the archive second."""
+        chain = filesys.FileSystemChain(filesys.VirtualFileSystem({}))
+        chain.add_sys(filesys.get_filesystem(self.path))
+        return chain
+
     # ---- the invariant
     def verify_fresh(self, when: str) -> None:
         from srctools.vpk import VPK
@@ -719,6 +816,7 @@ class Machine:
         if self.want_extract:
             self.want_extract = False
             self.check_extract(fresh, w)
+        fs_checked = self.check_reopen_routes(w)
 
         for key in sorted(self.ever - set(model)):
             for sp in range(N_SPELL):
@@ -757,6 +855,8 @@ class Machine:
             if e.length and e.preload:
                 self.saw_split = True
                 self.labels.add('split')
+            if fs_checked:
+                self.labels.add('fsroute:' + ('single-' if self.single else '') + loc)
             lab = f'loc:{"single-" if self.single else ""}{loc}|lim:{limit_class(meta["limit"])}'
             self.labels.add(lab)
             self.labels.add('loc:' + ('single-' if self.single else '') + loc)
@@ -1209,7 +1309,9 @@ SUBCHECKS = [
                   'end:write', 'end:exit', 'end:abandon', 'arch:None', 'arch:dflt', 'arch:999',
                   'op:add_folder', 'addfolder:trail_sep+subfolders', 'addfolder:prefix', 'addfolder:no_prefix',
                   'addfolder:nested_subfolders', 'addfolder:toplevel_file', 'addfolder:arg_relative', 'extract_all',
-                  'noncanonical:pair', 'noncanonical:triple')),
+                  'noncanonical:pair', 'noncanonical:triple',
+                  'route:VPK_a', 'route:VPKFileSystem', 'route:get_filesystem', 'route:chain', 'route:chain_add_sys',
+                  'fsroute:preload', 'fsroute:tail', 'fsroute:numbered', 'fsroute:single-preload', 'fsroute:single-tail')),
     Sub('names', execute_names, strategy=names_strategy, quick=1200, thorough=30000, floor=50,
         quick_shards=4, thorough_shards=16,
         must_hit=('name:empty_folder', 'name:empty_ext', 'name:empty_stem', 'name:dotted_stem', 'name:nested_folder',
